@@ -8,11 +8,13 @@
 // dev     naive | eigen : subclasses whose new_handle() fills every fresh
 //         buffer with a canary (a NaN with a payload).  A canary that survives
 //         in the result of a forward kernel is printed as `C`.
-// tensor  T:<d0,d1,...>/<batch>:<v0,v1,...>
+// tensor  T:<d0,d1,...>/<batch>:<v0,v1,...>   on <dev>
+//         O:<d0,d1,...>/<batch>:<v0,v1,...>   on the OTHER backend's device (every entry point must throw)
 // value   decimal integer | x<16 hex digits> (bits of a double; converted to float)
 // arg     K:<value> (float argument) | decimal integer
 // result  ok [dims]xB h<8 hex>,...( | [dims]xB h<8 hex>,...) | err | bad-op
 //         (h<8 hex> = bits of the float32 element)
+//         a `_bw` call that throws although it already changed an accumulator answers `err modified`
 // <name>_grad lines: y = <name>_fw(x...); g = zeros; <name>_bw(x..., y, gy, g); print g.
 #include "common.h"
 #include <cmath>
@@ -83,7 +85,7 @@ static float parse_value(const std::string &t) {
   throw BadOp();
 }
 
-struct RawT { std::vector<std::uint32_t> dims; std::uint32_t batch; std::vector<float> vals; };
+struct RawT { std::vector<std::uint32_t> dims; std::uint32_t batch; std::vector<float> vals; bool other; };
 
 static RawT parse_tensor(const std::string &t) {
   std::vector<std::string> p = vh::split(t.substr(2), ':');
@@ -91,6 +93,7 @@ static RawT parse_tensor(const std::string &t) {
   std::vector<std::string> sh = vh::split(p[0], '/');
   if (sh.size() != 2) throw BadOp();
   RawT r;
+  r.other = t[0] == 'O';
   r.dims = vh::csv_u32(sh[0]);
   r.batch = vh::to_u32(sh[1]);
   if (!p[1].empty()) for (const std::string &v : vh::split(p[1], ',')) r.vals.push_back(parse_value(v));
@@ -164,7 +167,9 @@ static std::string exec(Devs &D, const std::vector<std::string> &w) {
   const std::string &kern = w[1];
   std::size_t i = 2;
   std::vector<RawT> raws;
-  for (; i < w.size() && w[i].compare(0, 2, "T:") == 0; ++i) raws.push_back(parse_tensor(w[i]));
+  for (; i < w.size() && (w[i].compare(0, 2, "T:") == 0 || w[i].compare(0, 2, "O:") == 0); ++i)
+    raws.push_back(parse_tensor(w[i]));
+  Device *other = (dev == static_cast<Device *>(&D.n)) ? static_cast<Device *>(&D.e) : static_cast<Device *>(&D.n);
   std::vector<float> ks;
   for (; i < w.size() && w[i].compare(0, 2, "K:") == 0; ++i) ks.push_back(parse_value(w[i].substr(2)));
   std::vector<std::int64_t> ns;
@@ -177,7 +182,8 @@ static std::string exec(Devs &D, const std::vector<std::string> &w) {
   for (const RawT &r : raws) shapes.push_back(Shape(r.dims, r.batch));
   for (std::size_t k = 0; k < raws.size(); ++k) if (shapes[k].size() != raws[k].vals.size()) throw BadOp();
   std::vector<Tensor> t;
-  for (std::size_t k = 0; k < raws.size(); ++k) t.push_back(dev->new_tensor_by_vector(shapes[k], raws[k].vals));
+  for (std::size_t k = 0; k < raws.size(); ++k)
+    t.push_back((raws[k].other ? other : dev)->new_tensor_by_vector(shapes[k], raws[k].vals));
   const std::size_t T = t.size(), K = ks.size(), N = ns.size();
 
   if (ends_with(kern, "_fw")) {
@@ -200,30 +206,43 @@ static std::string exec(Devs &D, const std::vector<std::string> &w) {
     throw BadOp();
   }
   if (ends_with(kern, "_bw")) {
-    const std::string base = kern.substr(0, kern.size() - 3);
-    BwX bx; BwC bc; BwAB bab;
-    if (T == 4 && K == 0 && N == 0 && lookup(BWX, base, bx)) { (dev->*bx)(t[0], t[1], t[2], t[3]); return "ok " + show(t[3], false); }
-    if (T == 4 && K == 1 && N == 0 && lookup(BWC, base, bc)) { (dev->*bc)(t[0], t[1], t[2], ks[0], t[3]); return "ok " + show(t[3], false); }
-    if (T == 4 && K == 0 && N == 1 && base == "pown") {
-      if (ns[0] < -2147483648ll || ns[0] > 2147483647ll) throw BadOp();
-      dev->pown_bw(t[0], t[1], t[2], static_cast<std::int32_t>(ns[0]), t[3]);
-      return "ok " + show(t[3], false);
+    try {
+      const std::string base = kern.substr(0, kern.size() - 3);
+      BwX bx; BwC bc; BwAB bab;
+      if (T == 4 && K == 0 && N == 0 && lookup(BWX, base, bx)) { (dev->*bx)(t[0], t[1], t[2], t[3]); return "ok " + show(t[3], false); }
+      if (T == 4 && K == 1 && N == 0 && lookup(BWC, base, bc)) { (dev->*bc)(t[0], t[1], t[2], ks[0], t[3]); return "ok " + show(t[3], false); }
+      if (T == 4 && K == 0 && N == 1 && base == "pown") {
+        if (ns[0] < -2147483648ll || ns[0] > 2147483647ll) throw BadOp();
+        dev->pown_bw(t[0], t[1], t[2], static_cast<std::int32_t>(ns[0]), t[3]);
+        return "ok " + show(t[3], false);
+      }
+      if (T == 6 && K == 0 && N == 0 && lookup(BWAB, base, bab)) {
+        (dev->*bab)(t[0], t[1], t[2], t[3], t[4], t[5]);
+        return "ok " + show(t[4], false) + " | " + show(t[5], false);
+      }
+      if (T == 6 && K == 0 && N == 6 && base == "conv2d") {
+        dev->conv2d_bw(t[0], t[1], t[2], t[3], u32arg(ns[0]), u32arg(ns[1]), u32arg(ns[2]), u32arg(ns[3]),
+                       u32arg(ns[4]), u32arg(ns[5]), t[4], t[5]);
+        return "ok " + show(t[4], false) + " | " + show(t[5], false);
+      }
+      if (T == 4 && K == 0 && N == 6 && base == "max_pool2d") {
+        dev->max_pool2d_bw(t[0], t[1], t[2], u32arg(ns[0]), u32arg(ns[1]), u32arg(ns[2]), u32arg(ns[3]),
+                           u32arg(ns[4]), u32arg(ns[5]), t[3]);
+        return "ok " + show(t[3], false);
+      }
+      throw BadOp();
+    } catch (const primitiv::Error &) {
+      // a rejected call must leave the accumulators untouched
+      std::vector<std::size_t> acc;
+      if (T == 4) acc.push_back(3);
+      if (T == 6) { acc.push_back(4); acc.push_back(5); }
+      for (std::size_t a : acc) {
+        const std::vector<float> now = t[a].to_vector();
+        if (now.size() != raws[a].vals.size() ||
+            std::memcmp(now.data(), raws[a].vals.data(), now.size() * sizeof(float)) != 0) return "err modified";
+      }
+      throw;
     }
-    if (T == 6 && K == 0 && N == 0 && lookup(BWAB, base, bab)) {
-      (dev->*bab)(t[0], t[1], t[2], t[3], t[4], t[5]);
-      return "ok " + show(t[4], false) + " | " + show(t[5], false);
-    }
-    if (T == 6 && K == 0 && N == 6 && base == "conv2d") {
-      dev->conv2d_bw(t[0], t[1], t[2], t[3], u32arg(ns[0]), u32arg(ns[1]), u32arg(ns[2]), u32arg(ns[3]),
-                     u32arg(ns[4]), u32arg(ns[5]), t[4], t[5]);
-      return "ok " + show(t[4], false) + " | " + show(t[5], false);
-    }
-    if (T == 4 && K == 0 && N == 6 && base == "max_pool2d") {
-      dev->max_pool2d_bw(t[0], t[1], t[2], u32arg(ns[0]), u32arg(ns[1]), u32arg(ns[2]), u32arg(ns[3]),
-                         u32arg(ns[4]), u32arg(ns[5]), t[3]);
-      return "ok " + show(t[3], false);
-    }
-    throw BadOp();
   }
   if (ends_with(kern, "_grad")) {
     const std::string base = kern.substr(0, kern.size() - 5);
